@@ -1,7 +1,9 @@
 package core
 
 import (
+	"fmt"
 	"go/token"
+	"os"
 	"strings"
 
 	"golang.org/x/tools/go/ssa"
@@ -46,6 +48,7 @@ type ErrEngine struct {
 	// Override lets a rule give the class of calls it models itself (e.g. opaque callbacks).
 	Override func(call *ssa.Call, idx int) (ErrClass, bool)
 	stored   map[*ssa.Global]bool
+	budget   int
 }
 
 func NewErrEngine(p *Prog) *ErrEngine {
@@ -72,11 +75,23 @@ type errEnv map[*ssa.Parameter]ErrClass
 
 // Classify returns the class of error value v as seen at the end of block at.
 func (e *ErrEngine) Classify(v ssa.Value, at *ssa.BasicBlock) ErrClass {
+	e.budget = classifyBudget
 	return e.classify(v, at, nil, 0, map[ssa.Value]bool{})
 }
 
+// classifyBudget bounds the work of one query: chains of spilled locals (named results under a defer) branch at every
+// load, and the exploration is exponential in their depth. Out of budget, the answer is "any class" (sound).
+const classifyBudget = 20000
+
 func (e *ErrEngine) classify(v ssa.Value, at *ssa.BasicBlock, env errEnv, depth int, seen map[ssa.Value]bool) ErrClass {
 	if depth > 10 {
+		return CAll
+	}
+	e.budget--
+	if e.budget < 0 {
+		if e.budget == -1 && os.Getenv("PWV_ERRDEBUG") != "" {
+			fmt.Fprintf(os.Stderr, "errclass: budget exhausted classifying %s in %s\n", v.Name(), v.Parent())
+		}
 		return CAll
 	}
 	base := e.base(v, at, env, depth, seen)
